@@ -51,6 +51,19 @@ Proof. revert nt. induction dep as [|[ki vi] rest IH]; simpl; intros nt H N k I 
       * injection H as <-. destruct I as [<-|I]; [unfold triv; rewrite G; exact Logic.I|apply (IH l eq_refl N' k I NI)].
 Qed.
 
+(* the declared dependencies of an assigned column contain the columns its expression mentions AND the window's partition
+   and order columns: what `deps_describe` needs of a windowed term, whose text reads them in its OVER clause *)
+Lemma declared_deps_cover demand subops partition order k cols :
+  dict_get subops k = Some cols ->
+  forall c, In c (cols ++ partition ++ order) -> In c (deps_of (declared_deps demand subops partition order) k).
+Proof.
+  intros G c I. unfold deps_of, declared_deps. rewrite dict_get_app.
+  assert (dict_get (map (fun k0 : string => (k0, [k0])) (filter (fun k0 => negb (mem k0 (map fst subops))) demand)) k = None) as ->.
+  { apply dict_get_None. unfold dict_keys. rewrite map_map. simpl. rewrite map_id. intros J. apply filter_In in J.
+    destruct J as [_ J]. apply negb_true_iff, mem_false in J. apply J. eapply dict_get_Some_keys. exact G. }
+  rewrite (dict_get_map_val (fun e => e ++ partition ++ order)), G. simpl. exact I.
+Qed.
+
 Section P.
 Variable V : Type.
 Variable tsem : string -> (string -> option V) -> option V.
